@@ -1193,6 +1193,8 @@ class C17:
                     return self.run_json(inp)
                 if kind == 'reser':
                     return self.run_reser(inp)
+                if kind == 'fresh':
+                    return self.run_fresh(inp)
                 return self.run_pandas(inp)
             except Exception as e:      # noqa: BLE001
                 if self._stage == 'setup':
@@ -1204,6 +1206,80 @@ class C17:
                     self._stage, e, os.path.basename(tb.filename), tb.lineno), [inp['kind'], 'unusable-object'])
             finally:
                 shutil.rmtree(os.path.join(fw.WORK, 'c17-files-%d' % os.getpid()), ignore_errors=True)
+
+    FRESH_PROBE = r"""
+import json, pickle, sys, warnings
+warnings.simplefilter('ignore')
+
+
+def probe(dm):
+    # follow-up operations on a table; every step is recorded as a value or as the exception class
+    out = []
+
+    def rec(label, f):
+        try:
+            out.append([label, f()])
+        except Exception as e:      # noqa: BLE001
+            out.append([label, 'raised ' + type(e).__name__])
+    cell = lambda v: repr(v)
+    rows = lambda t: [[n, type(c).__name__, [cell(v) if not hasattr(v, 'tolist') else repr(v.tolist()) for v in c]]
+                      for n, c in t.columns]
+    names = [n for n, _c in dm.columns]
+    rec('read', lambda: rows(dm))
+    # first: indexing a column by its table, before anything has constructed a column in this process
+    for n in names:
+        rec('col[dm] ' + n, lambda n=n: [cell(v) if not hasattr(v, 'tolist') else repr(v.tolist()) for v in dm[n][dm]])
+    rec('owners', lambda: [c.dm is dm for _n, c in dm.columns])
+    if names and len(dm):
+        n0 = names[0]
+        rec('select', lambda: rows(dm[n0] == dm[n0][0]))
+        rec('merge', lambda: rows((dm[n0] == dm[n0][0]) | dm[:1]))
+        rec('col[sel] = v', lambda: (dm[n0].__setitem__(dm[:1], dm[n0][len(dm) - 1]), rows(dm))[1])
+    rec('resize', lambda: (setattr(dm, 'length', len(dm) + 1), rows(dm))[1])
+    rec('slice', lambda: rows(dm[1:]))
+    return out
+
+
+if __name__ == '__main__':
+    print(json.dumps(probe(pickle.load(open(sys.argv[1], 'rb')))))
+"""
+
+    def run_fresh(self, inp):
+        """A table pickled here and restored in a FRESH interpreter (which has imported nothing of the library before
+        unpickling and has never constructed a column): the follow-up operations there give what they give here on
+        the original."""
+        import subprocess
+        self._stage = 'setup'
+        r = build_pool(inp['ops'], inp['seed'])
+        dm = r.pool[inp['t']]
+        d = os.path.join(fw.WORK, 'c17-files-%d' % os.getpid())
+        os.makedirs(d, exist_ok=True)
+        path = os.path.join(d, 'fresh.pkl')
+        with open(path, 'wb') as f:
+            pickle.dump(dm, f, protocol=inp.get('protocol', 2))
+        script = os.path.join(d, 'fresh_probe.py')
+        with open(script, 'w') as f:
+            f.write(self.FRESH_PROBE)
+        self._stage = 'restored (fresh process)'
+        env = dict(os.environ, PYTHONPATH=fw.REPO + os.pathsep + os.path.join(fw.VERIF, 'shim'), PYTHONHASHSEED='0',
+                   PYTHONWARNINGS='ignore')
+        pr = subprocess.run(['/venv/bin/python', script, path], capture_output=True, text=True, env=env, timeout=120)
+        ns = {}
+        exec(compile(self.FRESH_PROBE, 'fresh_probe', 'exec'), ns)
+        want = json.loads(json.dumps(ns['probe'](pickle.loads(pickle.dumps(dm)))))
+        problem = None
+        try:
+            got = json.loads(pr.stdout.strip().splitlines()[-1])
+        except Exception:       # noqa: BLE001
+            got = None
+            problem = 'the fresh process failed: %s' % (pr.stderr.strip()[-600:] or pr.stdout[-300:],)
+        if problem is None and got != want:
+            diff = [(a, b) for a, b in zip(got, want) if a != b][:3]
+            problem = 'a table restored in a fresh process behaves differently: %r' % (diff,)
+        return {'input': inp, 'observed': {'fresh': got if problem else 'as here', 'problem': problem}, 'pyfail': problem,
+                'oracle': 'true', 'model': 'true', 'nontrivial': True,
+                'sig': json.dumps(['fresh', inp['ops'], inp['seed'], inp['t'], inp.get('protocol', 2)], sort_keys=True, default=str),
+                'tags': ['fresh-process']}
 
     def gen_series(self, rng, big_ok=True):
         """0, 1 or 2 series columns"""
@@ -1271,6 +1347,8 @@ class C17:
                                              fseed=sub.randrange(1 << 30), nfollow=sub.randint(1, 4),
                                              before=before, after=after, foreign=sub.random() < 0.15,
                                              **ser(big_ok=sub.random() < 0.3))))
+            if h % 12 == 0 and npool:
+                cases.append(self.rerun(dict(base, kind='fresh', t=order[0], protocol=sub.choice([0, 2, 4]))))
             for t in order[:2]:
                 extra = ser()
                 # the perturbation is chosen on the table as it is before the post-operations; a stale row index
